@@ -253,7 +253,7 @@ def run(ctx):
                 "plus forced options the path cannot carry that ended in a clean failure.")
     res.assumptions = ["liveness restated as: handshake within 300 virtual s, delivery within 120 s after the last offer",
                        "the family is the stated product, not every conceivable middlebox"]
-    n = ctx.pick(200, 6000)
+    n = ctx.pick(400, 40000)
     rng = random.Random(ctx.seed * 5011 + 11)
     plist = []
     for i in range(n):
